@@ -47,6 +47,30 @@ func NewVerifSession(cfg VerifConfig, predefined topics.PredefinedTopics, logger
 	return &VerifSession{h: h}
 }
 
+// NewVerifSessionGroup builds one session per broker connection the way
+// Gateway.ListenAndServe does: all of them share one handlerConfig, one
+// predefined topics map and one logger.
+func NewVerifSessionGroup(cfg VerifConfig, predefined topics.PredefinedTopics, logger util.Logger, brokerConns []net.Conn) []*VerifSession {
+	handlerCfg := &handlerConfig{
+		MqttUser:     cfg.MqttUser,
+		MqttPassword: cfg.MqttPassword,
+		AuthEnabled:  cfg.AuthEnabled,
+		RetryDelay:   cfg.RetryDelay,
+		RetryCount:   cfg.RetryCount,
+	}
+	var sessions []*VerifSession
+	for _, conn := range brokerConns {
+		brokerConn := conn
+		h := newHandler(handlerCfg, predefined, logger)
+		if cfg.TopicIDMin != 0 && cfg.TopicIDMax != 0 {
+			h.topicID = util.NewIDSequence(cfg.TopicIDMin, cfg.TopicIDMax)
+		}
+		h.mockupDialFunc = func() net.Conn { return brokerConn }
+		sessions = append(sessions, &VerifSession{h: h})
+	}
+	return sessions
+}
+
 // Run runs the session until it ends.
 func (s *VerifSession) Run(ctx context.Context, snConn net.Conn) {
 	s.h.run(ctx, snConn)
